@@ -227,3 +227,132 @@ theorem waitersOk_run (f : Bool) (s : St) (acts : List Act) (hs : WaitersOk s) (
     exact ih _ (waitersOk_step f s a hs (ha a (by simp))) (fun x hx => ha x (by simp [hx]))
 
 end PV.BufferedPipe
+
+namespace PV.BufferedPipe
+open PV
+
+/-! ## the attached event mirrors "closed or data buffered" at every lock-free point -/
+
+/-- `event.is_set()` ⇔ closed ∨ buffer non-empty (when an event is attached) -/
+def EvOk (s : St) : Prop := ∀ b, s.event = some b → b = (s.closed || !s.buf.isEmpty)
+
+theorem evOk_clearEvent_nil (s : St) (h : EvOk s) : EvOk (clearEvent { s with buf := [] }) := by
+  intro b hb
+  unfold clearEvent at hb
+  cases he : s.event with
+  | none => simp [he] at hb
+  | some b0 =>
+    have h0 := h b0 he
+    simp only [he] at hb
+    cases hc : s.closed with
+    | true =>
+      simp [hc] at hb
+      subst hb
+      simp [hc] at h0 ⊢
+      exact h0
+    | false =>
+      simp [hc] at hb
+      subst hb
+      simp
+
+theorem evOk_deliver (s : St) (tid n : Nat) (h : EvOk s) : EvOk (deliver s tid n) := by
+  unfold deliver
+  split
+  · intro b hb
+    exact evOk_clearEvent_nil s h b (by simpa using hb)
+  · rename_i hlen
+    intro b hb
+    simp only [] at hb ⊢
+    have h0 := h b hb
+    have hne : s.buf ≠ [] := by intro e; simp [e] at hlen
+    have hd : s.buf.drop n ≠ [] := by
+      intro e
+      have := congrArg List.length e
+      simp at this
+      omega
+    have e1 : s.buf.isEmpty = false := by simpa using hne
+    have e2 : (s.buf.drop n).isEmpty = false := by simpa using hd
+    rw [h0, e1, e2]
+
+theorem evOk_congr (s s' : St) (h : EvOk s) (he : s'.event = s.event) (hb : s'.buf = s.buf) (hc : s'.closed = s.closed) :
+    EvOk s' := by
+  intro b hb'
+  rw [he] at hb'
+  rw [hb, hc]
+  exact h b hb'
+
+theorem evOk_wakeWith (s : St) (w : Waiter) (e : Int) (h : EvOk s) : EvOk (wakeWith true s w e) := by
+  have h0 : EvOk (dropWaiter s w.tid) := evOk_congr s _ h rfl rfl rfl
+  unfold wakeWith
+  simp only []
+  split
+  · split
+    · exact evOk_deliver _ _ _ h0
+    · exact evOk_congr _ _ h0 rfl rfl rfl
+  · split
+    · exact evOk_congr _ _ h0 rfl rfl rfl
+    · exact evOk_deliver _ _ _ h0
+
+theorem evOk_step (s : St) (a : Act) (h : EvOk s) : EvOk (step s a) := by
+  cases a with
+  | feed d =>
+    simp only [step, stepG]
+    by_cases hd : d = []
+    · subst hd
+      simp only [List.isEmpty_nil, if_true, List.append_nil]
+      exact evOk_congr s _ h rfl rfl rfl
+    · have hd' : d.isEmpty = false := by simpa using hd
+      simp only [hd', Bool.false_eq_true, if_false]
+      intro b hb
+      unfold setEventFlag at hb ⊢
+      cases he : s.event with
+      | none => simp [he] at hb
+      | some b0 =>
+        simp [he] at hb
+        subst hb
+        simp [hd]
+  | read tid n t =>
+    simp only [step, stepG]
+    split
+    · exact h
+    · split
+      · split
+        · exact evOk_congr s _ h rfl rfl rfl
+        · split
+          · exact evOk_congr s _ h rfl rfl rfl
+          · exact evOk_congr s _ h rfl rfl rfl
+      · exact evOk_deliver s tid n h
+  | wake tid e =>
+    simp only [step, stepG]
+    split
+    · exact h
+    · exact evOk_wakeWith s _ e h
+  | empty tid =>
+    simp only [step, stepG]
+    split
+    · exact h
+    · intro b hb
+      exact evOk_clearEvent_nil s h b (by simpa using hb)
+  | close =>
+    simp only [step, stepG]
+    intro b hb
+    unfold setEventFlag at hb
+    cases he : s.event with
+    | none => simp [he] at hb
+    | some b0 =>
+      simp [he] at hb
+      subst hb
+      simp [setEventFlag]
+  | setEvent =>
+    simp only [step, stepG]
+    intro b hb
+    simp at hb
+    subst hb
+    simp
+
+theorem evOk_run (s : St) (acts : List Act) (h : EvOk s) : EvOk (run s acts) := by
+  induction acts generalizing s with
+  | nil => exact h
+  | cons a rest ih => exact ih _ (evOk_step s a h)
+
+end PV.BufferedPipe
